@@ -128,6 +128,15 @@ def run(ctx):
         k = rng.randint(1, 4); B = qx.rand_int(rng, n, k, -5, 5); Bn = qx.to_np(B)
         AB = qx.mm(A, B)
         if rmul(RE, fr(utils.real_expand(Bn))) != rexp_ref(AB): viol('C02:real_expand:multiplicative', 'expand(A) expand(B) != expand(AB)', A)
+        # ... and for the library's own product in every storage combination of the factors (the embedding of the product it returns)
+        from .c01 import mk_sparse as _mks
+        for combo, (Xa, Xb) in (('dense@dense', (An, Bn)), ('dense@sparse', (An, _mks(utils, B))), ('sparse@dense', (_mks(utils, A), Bn)), ('sparse@sparse', (_mks(utils, A), _mks(utils, B)))):
+            try:
+                Pn = utils.quat_matmat(Xa, Xb)
+                if hasattr(Pn, 'real') and hasattr(Pn, 'i') and not isinstance(Pn, np.ndarray):
+                    Pn = quaternion.as_quat_array(np.stack([np.asarray(c.toarray(), dtype=float) for c in (Pn.real, Pn.i, Pn.j, Pn.k)], axis=-1))
+                if fr(utils.real_expand(np.asarray(Pn))) != rmul(RE, fr(utils.real_expand(Bn))): viol(f'C02:real_expand:multiplicative:{combo}', f'expand(A B) != expand(A) expand(B) for the library product {combo}', A)
+            except Exception as e: viol(f'C02:real_expand:multiplicative:{combo}:raises', f'product {combo} raised {e!r}', A)
         cB = [np.array(c, dtype=float) for c in qx.comps(B)]
         if rmul(RP, fr(utils.Realp(*cB))) != realp_ref(AB): viol('C02:Realp:multiplicative', 'Realp(A) Realp(B) != Realp(AB)', A)
         if fr(utils.real_expand(qx.to_np(qx.herm(A)))) != rT(RE): viol('C02:real_expand:herm', 'expand(A^H) != expand(A)^T', A)
